@@ -30,6 +30,7 @@ RULE = ("(sequential) ALL operation sequences of length <= 5 (thorough: 6) over 
 RULE += (" Also: planned failures of every standard exception type (KeyError, AttributeError, ...), falsy exception instances, falsy property values (None, 0, False, '') in sequential histories; falsy lock objects.")
 RULE += (' Also: host instances are falsy and report len() == 0.')
 RULE += (' Also: a lock type whose instances share one non-re-entrant lock; opaque property values.')
+RULE += (' Also: property values that happen to be awaitable.')
 ASSUMPTIONS = ["awaiting a handle taken while a value was cached returns that value (unspecified after del; accepted)",
                "the getter's own suspensions are the only scheduling points besides lock waits"]
 EXHAUSTIVE_SUBSPACES = 'all operation sequences of length <= 5 (thorough: 6) over 7 operations; DFS-complete schedule sets for the scenarios counted in scenarios_explored_exhaustively'
@@ -50,11 +51,11 @@ def cases(tier, seed, shard, nshards):
             if idx % nshards == shard:
                 yield {"kind": "seq", "ops": list(ops), "lock": (idx // nshards) % 2 == 0,
                        "exc": PLANNED_NAMES[(idx // (2 * nshards)) % len(PLANNED_NAMES)],
-                       "falsy": [None, "none", "zero", None, "false", "empty", "opaque"][(idx // nshards) % 7]}
+                       "falsy": [None, "none", "zero", None, "false", "empty", "opaque", "awaitable"][(idx // nshards) % 8]}
     rng = random.Random(f"C12-{seed}-{shard}")
     for _ in range(N_SEQ_RANDOM[tier] // nshards):
         yield {"kind": "seq", "ops": [rng.choice(SEQ_OPS) for _ in range(rng.randint(6, 15))], "lock": rng.random() < 0.5,
-               "exc": rng.choice(PLANNED_NAMES), "falsy": rng.choice([None, None, "none", "zero", "false", "empty", "opaque"])}
+               "exc": rng.choice(PLANNED_NAMES), "falsy": rng.choice([None, None, "none", "zero", "false", "empty", "opaque", "awaitable"])}
     n = max(1, N_SCEN[tier] // nshards)
     for i in range(n):
         mode = ["dfs", "random", "pct", "dfs"][i % 4]
@@ -72,8 +73,9 @@ def cases(tier, seed, shard, nshards):
                "exc": rng.choice(PLANNED_NAMES), "global_lock": rng.random() < 0.3}
 
 
-from ..tools import Opaque  # noqa: E402
+from ..tools import Opaque, AwaitablePayload  # noqa: E402
 
+AWAITABLE_VALUE = AwaitablePayload("value")  # a property value that happens to be awaitable: payload, never awaited
 OPAQUE = Opaque("value")  # a property value that refuses to be inspected (no truth value, equality, hash)
 
 
@@ -100,7 +102,7 @@ def run_seq(case, stats):
     def val(tag, rid):
         # the first instance's property may evaluate to None or another falsy value: cached like any other
         if tag == 0 and case.get("falsy") is not None:
-            return {"none": None, "zero": 0, "false": False, "empty": "", "opaque": OPAQUE}[case["falsy"]]
+            return {"none": None, "zero": 0, "false": False, "empty": "", "opaque": OPAQUE, "awaitable": AWAITABLE_VALUE}[case["falsy"]]
         return ("val", tag, rid)
 
     if case["lock"]:
